@@ -110,10 +110,11 @@ class Buffer:
                 if self.check_buffer_over_data_threshold(b):
                     if self.env.now in self.stored_times:
                         continue
-                    if self.cold[b].has_capacity_for(
-                        self.hot[b].observations['stored'][
+                    if (self.hot[b].observations['stored']
+                            and self.cold[b].has_capacity_for(
+                                self.hot[b].observations['stored'][
                                     -1].total_data_size
-                        ):
+                            )):
                             self.env.process(self.move_hot_to_cold(b))
                 #         else: Something quite wrong has gone? When we accept ingest we should make sure
                 #         that all buffers have capacity below a particular threshold
